@@ -9,9 +9,9 @@ class TxSpec(Spec):
     shrink_groups = (('nsteps', 'stmt_kind', ()), ('nsteps_long', 'stmt_kind', ()), ('nsteps_deep', 'stmt_kind', ()))
     wall_cap = {'quick': 1200, 'thorough': 7200}
     strata = {
-        'quick': [('core', 9), ('nofault', 4), ('deep', 4), ('migration', 4), ('migration_nofault', 2), ('exotic', 2),
+        'quick': [('core', 8), ('nofault', 4), ('deep', 4), ('migration', 6), ('migration_nofault', 3), ('exotic', 2),
                   ('refusal', 1), ('pooled', 1), ('pooled_nofault', 1)],
-        'thorough': [('core', 9), ('nofault', 4), ('deep', 4), ('migration', 4), ('migration_nofault', 2), ('exotic', 2),
+        'thorough': [('core', 8), ('nofault', 4), ('deep', 4), ('migration', 6), ('migration_nofault', 3), ('exotic', 2),
                      ('refusal', 1), ('pooled', 2), ('pooled_nofault', 1)],
     }
     runs = {'quick': 300000, 'thorough': 5000000}
